@@ -182,7 +182,7 @@ Example C14_join_binds_identity_witness :
 Proof. vm_compute. repeat split. Qed.
 
 (* "within one reporting interval": whatever arrives on the reporter's queue (update commands, other
-   messages, nothing), at the end of every round of the repaired reporter the last report is less
+   JSON, messages json.Unmarshal refuses - text, binary, empty -, nothing), at the end of every round of the repaired reporter the last report is less
    than StatsEvery old - a round lasts at most one second plus StatsEvery, so a change is reported
    within two such rounds (F18 repair) *)
 Theorem C14_reporter_keeps_reporting :
@@ -200,7 +200,8 @@ Proof. exact reporter_starved_lemma. Qed.
 Print Assumptions C14_reporter_keeps_reporting_before_repair_refuted.
 
 Example C14_reporter_witness :
-  silences true 1000 0 0 [RNoise 300; RNoise 300; RUpdate 10; RTick; RNoise 999]%Z = [0; 0; 0; 0; 0]%Z /\
+  silences true 1000 0 0 [RNoise 300; RGarbled 300 false; RUpdate 10; RTick; RGarbled 999 true]%Z = [0; 0; 0; 0; 0]%Z /\
+  silences true 5000 0 0 [RGarbled 300 false; RGarbled 300 false; RGarbled 300 false; RGarbled 300 false]%Z = [1300; 2600; 3900; 0]%Z /\
   silences true 5000 0 0 [RNoise 300; RNoise 300; RNoise 300; RNoise 300; RUpdate 10]%Z = [1300; 2600; 3900; 0; 0]%Z /\
   silences false 5000 0 0 [RNoise 300; RNoise 300; RNoise 300; RNoise 300; RNoise 300]%Z = [1300; 2600; 3900; 5200; 6500]%Z.
 Proof. vm_compute. repeat split. Qed.
